@@ -204,7 +204,8 @@ def import_shapes(tier):
                 continue
             imports = [CL[c] for c in order]
             imp = ' '.join(', '.join(s for s, _ in syms) + ' FROM ' + mn for mn, syms in imports)
-            body = "Ta ::= SEQUENCE { k INTEGER DEFAULT 1" + (", m Misc" if 'Other' in order else '') + (", a Aux" if 'Third' in order else '') + " }"
+            # several definitions of every kind in the importing module (each carries its own pointer to the module header)
+            body = "Aa ::= BOOLEAN Ta ::= SEQUENCE { k INTEGER DEFAULT 1" + (", m Misc" if 'Other' in order else '') + (", a Aux" if 'Third' in order else '') + " } Zz ::= NULL aval INTEGER ::= 1 zval BOOLEAN ::= TRUE"
             mods = [alpha2 if via_third else alpha] + ([gamma] if via_third else []) + ([other] if 'Other' in order else []) + ([third] if 'Third' in order else [])
             text = '\n'.join([f"Ma DEFINITIONS AUTOMATIC TAGS ::= BEGIN IMPORTS {imp}; {body} END"] + mods)
             tys = {'Kind', 'Colour'} if 'Alpha2' in order else {'Kind'}
